@@ -17,4 +17,5 @@ rm -f $WT/$DEST/$DEMO
 echo "== existing tests of $CRATE with the patch"; (cd $WT && timeout 3000 cargo test --offline -p $CRATE --lib --tests 2>&1 | grep -E "^test result|FAILED" | awk '{p+=$4; f+=$6} END {print "passed="p" failed="f}')
 unset CARGO_TARGET_DIR
 echo "== check $PID on patched tree"; (cd /verif && VERIF_REPO=$WT timeout 3000 ./check $PID 2>&1 | grep -E "^\[check\] C|VIOLATION|KNOWN" | cut -c1-300 | head -6)
-git -C /repo worktree remove --force $WT; rm -rf /verif/.cache/hb/alt-*
+TAG=$(python3 -c "import hashlib,sys; print('alt-'+hashlib.sha1(sys.argv[1].encode()).hexdigest()[:10])" $WT)
+git -C /repo worktree remove --force $WT; rm -rf /verif/.cache/hb/$TAG
